@@ -126,7 +126,7 @@ check(
     "C04",
     "exploration",
     "The same SCF sessions restricted to near-equilibrium closed-shell molecules with gap > 2 eV: the density handed to a solve comes from the previous geometry, another solver (fixed/adaptive mixing, Pulay, Krylov; SP2 or diagonalisation; implicit or unrolled differentiable variants; PM6 with d orbitals), an RHF<->UHF-singlet switch or a faulted density, in any order. A generated path that raises where the reference path succeeds is a violation (path-fails). Every converged solve is compared (energy, forces, charges, orbital energies) with a reference solve of the same geometry (cold, diagonalisation, adaptive->Pulay, eps 1e-11) within K x tau; tightening chains (eps, eps/100, eps/1e4 from the same start) must not move away from the limit.",
-    "Cross-solver agreement within one code base, not absolute correctness. Bounds are an order of magnitude above what the code achieves.",
+    "Cross-solver agreement within one code base, not absolute correctness. Bounds are an order of magnitude above what the code achieves. Two committed known findings, each matched by site and reproduced by a pinned session: the batch-wide Pulay history that can land a molecule on an unstable stationary point, and the analytical force evaluator for H-Cl under PM3.",
     "deterministic simulation: seeded solver-path/start-density histories compared against a fixed reference path",
     "scfsim",
     "DESIGN.md section 5 (C04)",
